@@ -182,6 +182,17 @@ func reflectOf(m any) protoreflect.Message {
 	return protoimpl.X.ProtoMessageV2Of(m).ProtoReflect()
 }
 
+// requireUsable makes a check inconclusive (never green) when most of the generated code could not be used:
+// that situation is C16's verdict, the other properties cannot be decided then.
+func requireUsable(t interface {
+	Fatalf(string, ...any)
+}, types []*MsgType, min int) {
+	if len(types) < min {
+		fmt.Println("INFRA-NO-USABLE-TYPES")
+		t.Fatalf("only %d usable generated types (at least %d expected): the generated code does not build, see C16", len(types), min)
+	}
+}
+
 // usable types (fast-marshal code generated, compiled and linked)
 func fmTypes(filter func(*MsgType) bool) []*MsgType {
 	loadCorpus()
